@@ -85,9 +85,9 @@ var (
 		reflect.TypeFor[float32](), tNumber,
 		reflect.TypeFor[MyInt](), reflect.TypeFor[MyInt8](), reflect.TypeFor[MyUint16](), reflect.TypeFor[MyFloat](),
 	}
-	strTypes  = []reflect.Type{reflect.TypeFor[string](), reflect.TypeFor[MyStr]()}
-	boolTypes = []reflect.Type{reflect.TypeFor[bool](), reflect.TypeFor[MyBool]()}
-	keyTypes  = []reflect.Type{reflect.TypeFor[string](), reflect.TypeFor[MyStr]()}
+	strTypes    = []reflect.Type{reflect.TypeFor[string](), reflect.TypeFor[MyStr]()}
+	boolTypes   = []reflect.Type{reflect.TypeFor[bool](), reflect.TypeFor[MyBool]()}
+	keyTypes    = []reflect.Type{reflect.TypeFor[string](), reflect.TypeFor[MyStr]()}
 	nilPtrTypes = []reflect.Type{
 		reflect.TypeFor[*int](), reflect.TypeFor[*string](), reflect.TypeFor[*map[string]any](), reflect.TypeFor[*any](), reflect.TypeFor[*[]any](),
 	}
